@@ -58,8 +58,8 @@ class C02(common.ModelProperty):
     title = "universe membership symmetric, ordered, duplicate-free"
     max_steps = 80
     budget = {
-        "quick": {"runs": 40000, "wall_cap_s": 600},
-        "thorough": {"runs": 3000000, "wall_cap_s": 3000},
+        "quick": {"runs": 120000, "wall_cap_s": 600},
+        "thorough": {"runs": 4000000, "wall_cap_s": 5400},
     }
     rule = (
         "one evaluation = one seeded history of membership calls from the vertex side, "
